@@ -122,6 +122,23 @@ pub fn jobs(ctx: &Ctx) -> Vec<Job> {
             ..Default::default()
         });
     }
+    // long strings of one class over the whole range of lengths a symbol can hold, at every level (the version-40
+    // capacity at L is 7089 digits / 4296 alphanumerics / 2953 bytes)
+    for class in 0..3usize {
+        for level in 0..4usize {
+            let cap = ctx.caps.cap(40, level, class);
+            for i in 0..ctx.tier.pick(10usize, 200) {
+                k += 1;
+                let len = match i {
+                    0 => cap,
+                    1 => cap - 1,
+                    2 => cap * 3 / 4,
+                    _ => 1 + (mix(ctx.seed, k) as usize) % cap,
+                };
+                jobs.push(Job { fam: FAMS[4], class, len, gen: (k % crate::job::GEN_COUNT as u64) as usize, seed: mix(ctx.seed, k), level: Some(level), mask: Some((k % 8) as usize), ..Default::default() });
+            }
+        }
+    }
     if ctx.tier == Tier::Thorough {
         // ALL three-byte strings (16.7 million): one job per two-byte prefix, the worker loops over the third byte
         for a in 0..=255u8 {
